@@ -228,6 +228,25 @@ def c14():
     chk.monitor(traces, source="views+roundtrips+from_job_sequences")
     # nobody modifies the instance: builders, observers, solvers, environments on one instance object
     from .echecks import env_trace, random_env_cfg
+    from .ochecks import random_creations
+    traces = []
+    for k, b in enumerate((behs_nf[: _n(chk, 20, 150)] + rb[: _n(chk, 30, 200)] + behs[: _n(chk, 10, 100)])):
+        s = dsession.DSession(3000 + k, b["inst"], b["filt"], ())
+        for bd in ("disjunctive", "agent_task", "agent_task_with_jobs", "complete_agent_task"):
+            s.graph_event(bd)
+        for (t, a) in random_creations(rng):
+            s.create_builtin(t, a)
+        s.create_graph_updater(rng.choice(("disjunctive", "agent_task")), True, True)
+        for a in b["hist"]:
+            if a["a"] == "D":
+                s.dispatch(a["j"], a["p"], a["m"])
+        s.solver_call(rng.choice(["spt", "fcfs", "mwkr", "mor", "obs_mwkr", "random"]), rng.choice(["first", "random"]), rng.choice([None, [], b["filt"]]))
+        if s.dispatcher.schedule.is_complete():
+            s.solved_event("dispatcher")
+        if not s.instance.is_flexible:
+            s.solved_event("cpsat")
+        traces.append(s.trace())
+    chk.monitor(traces, source="instance-unchanged-under-builders-observers-solvers")
     traces = [env_trace(len(behs) + len(behs_nf) + len(rb) + k + 1, b, random_env_cfg(rng, True), rng, episodes=1)
               for k, b in enumerate((behs + rb)[: _n(chk, 40, 300)])]
     chk.monitor(traces, source="instance-unchanged-under-environments")
